@@ -123,10 +123,65 @@ Proof.
   apply take_ge. destruct Hlen; lia.
 Qed.
 
+(* ---------- the construction itself (audit W3; repaired by /repo 675735a) ----------
+   updateAncestors appended to the PARENT's slice: two children c1, c2 of a parent whose slice has
+   spare capacity share one array, and a child of c1 and a child of c2 then both write the slot
+   behind it -- whichever queue is registered last overwrites the parent recorded for the other. *)
+Definition hq := 24%positive.
+
+Theorem construction_aliasing_refuted :
+  ancestors witness_table g = [qroot; q1; q2; q3; q4; q5; c2] /\
+  ancestors (add_queue witness_table hq (Some c1)) g = [qroot; q1; q2; q3; q4; q5; c1].
+Proof. split; vm_compute; reflexivity. Qed.
+
+(* the repaired construction: the child's list is built on a fresh array *)
+Definition add_queue_fixed (t : table) (q : positive) (parent : option positive) : table :=
+  match parent with
+  | None => mkTable (t_heap t) (<[q := empty_slice]> (t_anc t))
+  | Some p =>
+    let '(h', s') := fresh_append (t_heap t) (anc_of t p) p in
+    mkTable h' (<[q := s']> (t_anc t))
+  end.
+
+Definition table_wf (t : table) : Prop :=
+  heap_wf (t_heap t) /\ forall q s, t_anc t !! q = Some s -> is_Some (h_arrays (t_heap t) !! sl_arr s).
+
+(* registering q under p records exactly p's chain followed by p, changes no other queue's list,
+   and keeps the table well-formed: by induction, every stored list is the queue's parent chain
+   whatever the registration order *)
+Theorem add_queue_fixed_spec (t : table) (q p : positive) :
+  table_wf t ->
+  let t' := add_queue_fixed t q (Some p) in
+  ancestors t' q = ancestors t p ++ [p] /\
+  (forall q', q' <> q -> ancestors t' q' = ancestors t q') /\
+  table_wf t'.
+Proof.
+  intros [Hwf Hst]. cbv zeta. unfold add_queue_fixed, fresh_append. simpl.
+  set (n := h_next (t_heap t)).
+  assert (Hfresh : forall q' s, t_anc t !! q' = Some s -> sl_arr s <> n).
+  { intros q' s Hs Heq. destruct (Hst q' s Hs) as [l Hl].
+    pose proof (Hwf (sl_arr s) (ex_intro _ l Hl)) as Hlt. rewrite Heq in Hlt. unfold n in Hlt. lia. }
+  split; [|split; [|split]].
+  - unfold ancestors, anc_of, view, arr_of. simpl. rewrite lookup_insert. simpl.
+    rewrite (lookup_insert (h_arrays (t_heap t)) n). simpl.
+    apply take_ge. rewrite app_length, take_length. simpl. lia.
+  - intros q' Hne. unfold ancestors, anc_of, view, arr_of. simpl. rewrite lookup_insert_ne by congruence.
+    destruct (t_anc t !! q') as [s|] eqn:E; simpl; [|reflexivity].
+    rewrite lookup_insert_ne by (apply not_eq_sym, (Hfresh q' s E)). reflexivity.
+  - intros a [l Hl]. simpl in *. destruct (Pos.eq_dec a n) as [->|Hne]; [lia|].
+    rewrite lookup_insert_ne in Hl by congruence. pose proof (Hwf a (ex_intro _ l Hl)). lia.
+  - intros q' s Hs. simpl in *. destruct (Pos.eq_dec q' q) as [->|Hne].
+    + rewrite lookup_insert in Hs. inversion Hs; subst s. simpl. rewrite lookup_insert. eauto.
+    + rewrite lookup_insert_ne in Hs by congruence. destruct (Hst q' s Hs) as [l Hl].
+      rewrite lookup_insert_ne by (apply not_eq_sym, (Hfresh q' s Hs)). eauto.
+Qed.
+
 (* ---------- law 117 ---------- *)
-(* observed = [vote for g before; the disturbing vote; vote for g after; hierarchy unchanged] *)
+(* observed = [vote for g before; the disturbing vote; vote for g after; hierarchy unchanged;
+               every stored ancestor list = the parent chain of the Queue objects] *)
 Definition law_alias (toks : list Z) : option bool :=
   match toks with
   | [before; _; after; unchanged] => Some ((before =? after) && (unchanged =? 1))
+  | [before; _; after; unchanged; chains] => Some ((before =? after) && (unchanged =? 1) && (chains =? 1))
   | _ => None
   end.
